@@ -52,9 +52,9 @@ def describe(steps, only=None):
     bits = []
     for s in steps:
         k = s["k"]
-        if k in ("create", "modify", "delete") and only is not None and s["n"] not in only:
+        if k in ("create", "modify", "churn", "delete") and only is not None and s["n"] not in only:
             continue
-        if k in ("create", "modify", "delete"):
+        if k in ("create", "modify", "churn", "delete"):
             nm = ren.setdefault(s["n"], "abc"[len(ren)] if len(ren) < 3 else "n%d" % len(ren))
             if k == "delete":
                 bits.append("delete %s" % nm)
@@ -94,7 +94,9 @@ def features(steps):
     disconnected = False
     for s in steps:
         k = s["k"]
-        if k in ("create", "modify", "delete"):
+        if k == "churn":
+            feats.add(("C", "churn", "pending" if pending else ("rewatch" if disconnected else "watch")))
+        if k in ("create", "modify", "churn", "delete"):
             before = cur.get(s["n"])
             after = None if k == "delete" else s["o"]
             if after is None:
